@@ -467,8 +467,153 @@ def rtu_stream_family(ctx, n, cases=None):
     return len(cases), classes
 
 
+# ---------------------------------------------------------------------------------------------
+# consecutive connections of one channel (Properties/C04_Connections.v): a connection dies in the middle of a frame,
+# the next connection's replies must be decided by their own bytes alone
+# ---------------------------------------------------------------------------------------------
+def mbap(tx, unit, pdu):
+    return [tx >> 8, tx & 255, 0, 0, (len(pdu) + 1) >> 8, (len(pdu) + 1) & 255, unit] + list(pdu)
+
+
+def gen_conn_cases(r, n):
+    cases = []
+    while len(cases) < n:
+        conns, tx = [], 0
+        nconn = r.choice([2, 2, 3])
+        for ci in range(nconn):
+            xs = []
+            nx = r.choice([1, 1, 2])
+            for xi in range(nx):
+                k = r.choice([1, 3, 3, 4, 6, 16])
+                if k == 6:
+                    s0, cnt = r.randrange(65536), r.randrange(65536)
+                else:
+                    cnt = r.choice([1, 1, 2, 3, 9]) if k != 16 else r.choice([1, 2])
+                    s0 = r.randrange(0, 65536 - cnt + 1)
+                unit = r.choice([1, 17])
+                g = mbap(tx, unit, genuine(r, k, s0, cnt))
+                last = xi == nx - 1
+                kind = r.choice(['torn', 'torn', 'torn-header', 'full+torn', 'genuine', 'genuine', 'exception', 'nothing']) if last and ci < nconn - 1 \
+                    else r.choice(['genuine', 'genuine', 'genuine', 'exception', 'nothing', 'stale+genuine']) if not last \
+                    else r.choice(['genuine', 'genuine', 'genuine', 'exception', 'torn', 'nothing', 'stale+genuine'])
+                if kind == 'torn':
+                    stream = g[:r.randrange(7, len(g))]
+                elif kind == 'torn-header':
+                    stream = g[:r.randrange(1, 7)]
+                elif kind == 'full+torn':
+                    nxt = mbap((tx + 1) % 65536, unit, genuine(r, 3, 0, 2))
+                    stream = g + nxt[:r.randrange(1, len(nxt))]
+                elif kind == 'genuine':
+                    stream = g
+                elif kind == 'exception':
+                    stream = mbap(tx, unit, [k | 0x80, r.choice([1, 2, 4, 6, 11, 77])])
+                elif kind == 'stale+genuine':
+                    stream = mbap((tx - 1) % 65536, unit, genuine(r, k, s0, cnt)) + g
+                else:
+                    stream = []
+                if last and ci < nconn - 1:
+                    fin = r.choice(['Z', 'Z', 'E'])
+                elif last:
+                    fin = r.choice(['P', 'P', 'Z'])
+                else:
+                    fin = 'P'
+                xs.append({'kind': k, 'start': s0, 'count': cnt, 'unit': unit, 'tx': tx, 'chunks': cut(r, stream, r.choice(['whole', 'random', 'random', 'bytes'])), 'fin': fin,
+                           'what': kind, 'style': r.choice([0, 0, 1, 2])})
+                tx = (tx + 1) % 65536
+            conns.append(xs)
+        cases.append(conns)
+    return cases
+
+
+def conn_line(conns):
+    toks = []
+    for ci, xs in enumerate(conns):
+        if ci:
+            toks.append('/')
+        for x in xs:
+            vals = 's0' if x['kind'] in (15, 16) else '-'
+            raw = 'raw:' + '+'.join(''.join('%02X' % b for b in ch) for ch in x['chunks']) + {'P': '', 'Z': '/Z', 'E': '/E'}[x['fin']]
+            toks.append(f'{x["kind"]},{x["unit"]},{x["start"]},{x["count"]},{vals},{"fcx"[x["style"]]}@{raw}')
+    return 'T ' + ' '.join(toks)
+
+
+def conn_coq(conns):
+    return '[' + '; '.join('[' + '; '.join(
+        f'({x["kind"]}, {x["start"]}, {x["count"]}, {x["tx"]}, [{";".join(hexnum(ch) for ch in x["chunks"])}], { {"P": 0, "Z": 1, "E": 2}[x["fin"]] })' for x in xs) + ']'
+        for xs in conns) + ']'
+
+
+def connections_family(ctx, n, cases=None):
+    cases = cases or gen_conn_cases(ctx.rng, n)
+    impl = ctx.harness('cconn', [conn_line(c) for c in cases])
+    ok = ctx.build_models(['Model.SystemClientConnEval'])
+    both = ctx.coq_eval(['Model.SystemClientConnEval'], 'eval_conn_case', [conn_coq(c) for c in cases], case_type='conn_case', per_shard=100) if ok else [None] * len(cases)
+    bad = 0
+    classes = {}
+    for c, i, b in zip(cases, impl, both):
+        got = '/'.join(';'.join(rtu_canon(x) for x in conn.split(';')) for conn in i.split('|'))
+        for xs in c:
+            for x in xs:
+                classes['conn-exchange:' + x['what']] = classes.get('conn-exchange:' + x['what'], 0) + 1
+        if b is None:
+            continue
+        model, spec = b.split('|')
+        spec = model if spec == '=' else spec
+        if got != spec or got != model:
+            bad += 1
+            if bad <= 2:
+                # first differing exchange
+                gl, sl = [x for conn in got.split('/') for x in conn.split(';')], [x for conn in spec.split('/') for x in conn.split(';')]
+                ix = next((j for j in range(min(len(gl), len(sl))) if gl[j] != sl[j]), min(len(gl), len(sl)))
+                flat = [x for xs in c for x in xs]
+                what = flat[ix]['what'] if ix < len(flat) else '?'
+                key = f'client.connections.exchange-after-reconnect.result-differs-from-the-spec' if got != spec else 'model-differs-from-impl'
+                ctx.violation(key, f'{len(c)} consecutive connections of one channel: exchange #{ix} ({what}; {KIND_NAME[flat[ix]["kind"]] if ix < len(flat) else "?"}) '
+                              f'returned `{(gl + ["(none)"])[ix][:60]}` but the Spec (each connection decided by its own bytes: ref_connections) says `{(sl + ["(none)"])[ix][:60]}`; '
+                              f'all results `{got[:160]}` vs Spec `{spec[:160]}` [cconn: {conn_line(c)[:300]}]',
+                              {'conn_cases': [c], 'impl': i, 'spec': spec, 'model': model}, no_failing_input=(got == spec))
+    ctx.oblige('correspondence:consecutive-connections-vs-connections_from-and-ref_connections', bad == 0, f'{bad} of {len(cases)}')
+    return sum(len(xs) for c in cases for xs in c), classes
+
+
+# ---------------------------------------------------------------------------------------------
+# the C-ABI completion callbacks (Properties/C04_CAbi.v): exception replies with every code byte
+# ---------------------------------------------------------------------------------------------
+CABI_OPS = ['rc', 'rd', 'rh', 'ri', 'wc', 'wr', 'wmc', 'wmr']
+
+
+def cabi_exception_family(ctx, quick, given=None):
+    """harness ffi_client: one request through the extern "C" functions against a scripted TCP peer that answers with the
+    exception reply [fc|0x80, code]; what the C completion callback receives must be the Spec's name for that code
+    (Spec/CAbiSpec.v cabi_exception_name) and what the generated conversion tables say (cabi_callback_exception)"""
+    r = ctx.rng
+    cases = [tuple(x) for x in given] if given else []
+    for code in ([] if given else range(256)):
+        ops = CABI_OPS if (not quick or code in (1, 2, 3, 4, 5, 6, 8, 10, 11)) else [CABI_OPS[(code + r.randrange(8)) % 8]]
+        for op in ops:
+            cases.append((op, code))
+    out = ctx.harness('ffi_client', [f'req {op} {code} 1' for op, code in cases], timeout=600)
+    ok = ctx.build_models(['Spec.CAbiSpec', 'Model.ClientCAbi'])
+    both = ctx.coq_eval(['Spec.CAbiSpec', 'Model.ClientCAbi'], '(fun c : N => cabi_callback_exception c ++ "|" ++ cabi_exception_name c)',
+                        [str(c) for c in range(256)], case_type='N', preamble='Local Open Scope string_scope.', per_shard=256) if ok else None
+    bad = 0
+    for (op, code), line_out in zip(cases, out):
+        m = __import__('re').match(r'ffi:(\S+?)/(\S+) rust:(\S+)', line_out)
+        got = m.group(2) if m else line_out
+        model, spec = both[code].split('|') if both else (None, None)
+        if both and (got != 'failure:' + spec or got != 'failure:' + model):
+            bad += 1
+            if bad <= 2:
+                ctx.violation(f'client.cabi.exception-code-{code}.callback-receives-another-error' if got != 'failure:' + spec else 'model-differs-from-impl',
+                              f'C ABI, op {op}: the server answers with the exception reply for code {code}; the completion callback receives `{got}` '
+                              f'but the Spec says `failure:{spec}` (generated conversion tables: {model}; Rust API: {m.group(3) if m else "?"}) [ffi_client: req {op} {code} 1]',
+                              {'cabi_cases': [[op, code]], 'impl': line_out, 'spec': 'failure:' + spec, 'model': 'failure:' + model}, no_failing_input=(got == 'failure:' + spec))
+    ctx.oblige('correspondence:c-abi-callback-exception-vs-spec', bad == 0 and both is not None, f'{bad} of {len(cases)}')
+    return len(cases)
+
+
 def run(ctx):
-    ctx.translate(['Consts.v', 'ClientTables.v', 'SessionErrors.v', 'ErrorMaps.v'])
+    ctx.translate(['Consts.v', 'ClientTables.v', 'SessionErrors.v', 'ErrorMaps.v', 'FfiTables.v', 'DecodeLevels.v'])
     models_ok = ctx.build_models(REQS + ['Spec.ClientCodecSpec'])
     ctx.prove()
     if ctx.tier == 'thorough':
@@ -479,6 +624,14 @@ def run(ctx):
     if ctx.replay and 'rtu_cases' in ctx.replay:
         n_rtu, _ = rtu_stream_family(ctx, 0, cases=ctx.replay['rtu_cases'])
         ctx.coverage.update({'evaluations': n_rtu, 'distinct_nontrivial': n_rtu, 'rule': 'replay of RTU byte-stream cases', 'samples': []})
+        return
+    if ctx.replay and 'cabi_cases' in ctx.replay:
+        n_c = cabi_exception_family(ctx, quick, given=ctx.replay['cabi_cases'])
+        ctx.coverage.update({'evaluations': n_c, 'distinct_nontrivial': n_c, 'rule': 'replay of C-ABI exception cases', 'samples': []})
+        return
+    if ctx.replay and 'conn_cases' in ctx.replay:
+        n_c, _ = connections_family(ctx, 0, cases=ctx.replay['conn_cases'])
+        ctx.coverage.update({'evaluations': n_c, 'distinct_nontrivial': n_c, 'rule': 'replay of consecutive-connection cases', 'samples': []})
         return
     if ctx.replay and 'cases' in ctx.replay:
         cases = [(c[0], int(c[1]), int(c[2]), int(c[3]), int(c[4]), tuple(c[5]), int(c[6]) if len(c) > 6 else 0, int(c[7]) if len(c) > 7 else 0) for c in ctx.replay['cases']]
@@ -562,6 +715,16 @@ def run(ctx):
         missing = [n for n in need if classes.get(n, 0) < 3]
         unexpected = [k for k in classes if k.startswith('result:') and k.split(':')[1] in ('PANIC', 'BADLINE', 'OKX', 'ERR ResponseTimeout', 'ERR BadFrame', 'ERR LOST', 'ERR HUNG')]
         ctx.oblige('generator-reaches-expected-classes', not missing and not unexpected, f'missing={missing} unexpected={unexpected}')
+    n_cabi = 0
+    if not ctx.replay:
+        n_cabi = cabi_exception_family(ctx, quick)
+        classes['cabi-exception-cases'] = n_cabi
+    n_conn = 0
+    if not ctx.replay:
+        n_conn, conn_classes = connections_family(ctx, 300 if quick else 6000)
+        classes.update(conn_classes)
+        cmiss = [x for x in ('conn-exchange:torn', 'conn-exchange:torn-header', 'conn-exchange:full+torn', 'conn-exchange:genuine', 'conn-exchange:stale+genuine') if classes.get(x, 0) < 3]
+        ctx.oblige('connections-generator-reaches-expected-classes', not cmiss, f'missing={cmiss}')
     n_rtu = 0
     if not ctx.replay:
         n_rtu, rtu_classes = rtu_stream_family(ctx, 700 if quick else 12000)
@@ -573,7 +736,7 @@ def run(ctx):
         miss = [x for x in need_rtu if classes.get(x, 0) < 3]
         ctx.oblige('rtu-stream-generator-reaches-expected-classes', not miss and 'rtu-result:PANIC' not in classes, f'missing={miss}')
     ctx.coverage.update({
-        'evaluations': len(cases) + n_rtu,
+        'evaluations': len(cases) + n_rtu + n_cabi + n_conn,
         'distinct_nontrivial': len({c for c in cases if len(c[5]) >= 2}),
         'rule': 'cases (framing, kind, unit, start, count|value, reply PDU, range-is-struct-literal) from a seeded PRNG: F10 corpus (unvalidated range literals must be rejected), for every request kind and boundary range the genuine reply and its mutations (truncation, extension, function byte, byte-count byte, data bits, echo fields, coil raw value, exception replies) plus random PDUs of length 0..253; non-trivial = PDU of at least two bytes; distinct by value. RTU framing only where the RTU response parser delimits the PDU as such. Plus the RTU byte-stream family: raw chunked line bytes (genuine / mutated / exception / other unit / CRC damaged / bit flip / truncated / unknown function / over-long count / nothing, with noise or a second frame behind, then pending / EOF / error) vs client_system_rtu and ref_client_result_rtu',
         'samples': [[line(c)[:100], r[0][:60]] for c, r in list(zip(cases, results))[:8]],
